@@ -337,8 +337,9 @@ def _sh_reuse(tier):
     if tier == "quick":
         return product_pins(kind=[0], starts=[1], finals=[2], edit=list(range(7)), b0=[False], b1=[False, True]) + \
             product_pins(kind=[1, 2], starts=[1], finals=[2, 3], edit=list(range(6)), b0=[False], b1=[False])
-    return product_pins(kind=[0], starts=[1, 3], finals=[1, 2, 3], edit=list(range(7)), b0=[False], b1=[False, True]) + \
-        product_pins(kind=[1, 2], starts=[1, 3], finals=[1, 2, 3], edit=list(range(6)), b0=[False], b1=[False])
+    # each path runs 14 operations built on to_regex: the thorough list adds only the second start mask
+    return product_pins(kind=[0], starts=[1, 3], finals=[2], edit=list(range(7)), b0=[False], b1=[False, True]) + \
+        product_pins(kind=[1, 2], starts=[1], finals=[2, 3], edit=list(range(6)), b0=[False], b1=[False])
 
 
 FUNCS = ["EpsilonNFA.get_complement", "EpsilonNFA.__neg__", "EpsilonNFA.reverse", "EpsilonNFA.__invert__",
@@ -375,7 +376,7 @@ CONDS = [
                    "operations, edited once through the public API (add/remove start or final state, add/remove a "
                    "transition, add an eps transition; symbolic arguments) and used again: the second results are "
                    "judged against the operand as it then is (read through states/start_states/final_states/iteration)",
-          "thorough": "same with starts {0}/{0,1} and every non-empty final mask"},
+          "thorough": "eps-NFA also with starts {0,1}"},
          FUNCS + ["FiniteAutomaton.add_start_state", "DeterministicFiniteAutomaton.add_start_state",
                   "FiniteAutomaton.remove_start_state", "FiniteAutomaton.add_final_state",
                   "FiniteAutomaton.add_transition", "FiniteAutomaton.remove_transition"],
